@@ -58,6 +58,7 @@ PROFILE = gen.profile(
   act_trn=("joint", "joint", "jointinparent", "tendon", "site", "slidercrank"),
   jacobians=("dense", "sparse"),
   timestep=(0.002, 0.005, 0.00390625),
+  act_ball=False,  # servos on ball joints are C03's subject (MuJoCo 3.13 wraps their position error: forces differ)
 )
 
 
@@ -373,6 +374,11 @@ def run_case(case):
       vline = cmp.VIOL_FACTOR * (allow_v * vsc + cmp.C_NOISE * snoise["qvel"])
       if sig.startswith("step:") and np.any(np.abs(vref - classic) > vline) and np.all(np.abs(qvel_next[name][w] - classic) <= vline):
         sig = "step:" + name + ":mujoco-step-differs-from-its-own-qDeriv-solve"
+      if not sig.startswith("step:") and not np.all(np.isfinite(qvel_next[name][w])):
+        # the matrix MJWarp factorises differs from MuJoCo's by a classified mechanism and is not positive definite here
+        rec.check()
+        rec.viol(sig, f"qvel after one {name} step is not finite (system matrix differs from MuJoCo's by the classified mechanism) {ctx}")
+        continue
       judge_el(rec, "qvel_after_step_" + name, qvel_next[name][w], vref, allow_v, snoise["qvel"], scale=vsc, sig=sig, ctx=ctx)
     nz = int((np.abs(Di_ref) > 1e-9).sum())
     if nz >= 3:
